@@ -298,10 +298,12 @@ def run(ctx):
                 data = b"<stdout not empty with -o>" + out
         return job, data
     # histories: several prince_ling.py runs, one after the other, on the SAME ruleset directory
-    plans = []
+    import time
+    plans, t0 = [], time.time()
     for i in range(ctx.scale(10, 60)):
         steps, sizes = history_plan(ctx, "PH%d" % i)
         plans.append(("PH%d" % i, steps, sizes, history_refs(sc, steps, sizes)))
+    dist["history_reference_seconds"] = round(time.time() - t0, 1)
     with ThreadPoolExecutor(max_workers=common.NCPU) as ex:
         results = list(ex.map(do, jobs))
         houts = list(ex.map(lambda pl: history_cli(code, env, pl[0], pl[1], pl[3]), plans))
